@@ -124,7 +124,8 @@ def node_correspondence(rng, n):
     dis = []
     stats = {"sequences": n, "messages": 0, "predicts": 0, "accel": 0, "mag": 0, "skipped_dt<=0": 0, "init_attempts": 0}
     for (ms, ini, pa, pm), (acts, _, _), r in zip(cases, reals, res):
-        model = [ints(g) for g in re.findall(r"\[([^\[\]]*)\]", r)]
+        inner = r.strip()[1:-1]            # an empty trace prints as "[]": no inner lists
+        model = [ints(g) for g in re.findall(r"\[([^\[\]]*)\]", inner)]
         canon = []
         for a in acts:
             if a[0] == "init":
